@@ -22,6 +22,26 @@ def _evaluate(text, frags, space, acc, sqlparse):
     acc.case(text, oracles.has_group(stmts), outcome=f'{min(len(stmts), 3)} statement(s)', sample=text)
     if bad:
         acc.violation(e1.viol(bad[0], str(bad[1]), bad[2], text, frags, space))
+        return
+    acc.extra['n'] = acc.extra.get('n', 0) + 1
+    if acc.extra['n'] % 23 == 0 and stmts:
+        # the trees belong to the caller: after they were edited, parsing the same text again still returns the text
+        acc.extra['reparsed_after_edit'] = acc.extra.get('reparsed_after_edit', 0) + 1
+        for st in stmts:
+            for leaf in list(st.flatten())[:3]:
+                leaf.value = 'ZZ'
+            del st.tokens[1:]
+        try:
+            again = sqlparse.parse(text)
+            bad = oracles.check_c02(text, again)
+            if not bad and any(a is b for a, b in zip(again, stmts)):
+                bad = ('tree-shared-between-calls', 'parse', 'parse() returned a Statement object it had returned before')
+        except Exception as e:  # noqa
+            bad = ('parse-exception', 'second-parse|' + oracles.crash_site(e), repr(e)[:200])
+        if bad:
+            v = e1.viol(bad[0], 'after-editing-the-first-result|' + str(bad[1]), bad[2], text, frags, space)
+            v['edit_first'] = True
+            acc.violation(v)
 
 
 def run(tier, seed):
@@ -48,6 +68,11 @@ def replay(case):
     import sqlparse
     text = case['text']
     try:
+        if case.get('edit_first'):
+            for st in sqlparse.parse(text):
+                for leaf in list(st.flatten())[:3]:
+                    leaf.value = 'ZZ'
+                del st.tokens[1:]
         bad = oracles.check_c02(text, sqlparse.parse(text))
     except sqlparse.exceptions.SQLParseError:
         bad = None
